@@ -22,5 +22,18 @@ Print Assumptions C12_bln_cpu_optout.
 (* memory pinning disabled globally or for the balloon type: no memory nodes are written *)
 Theorem C12_bln_mem_optout : forall i,
   bi_type_pin_mem i = Some false \/ (bi_type_pin_mem i = None /\ bi_pin_mem i = false) -> bln_sets_mems i = false.
-Proof. intros i [H|[H1 H2]]; unfold bln_sets_mems, bln_pin_mem_eff; [rewrite H|rewrite H1]; auto. Qed.
+Proof. intros i [H|[H1 H2]]; unfold bln_sets_mems, bln_pin_mem_eff; [rewrite H|rewrite H1, H2]; auto. Qed.
 Print Assumptions C12_bln_mem_optout.
+
+(* a memory-preserving container is never written memory nodes by the balloons policy: neither when its own
+   allocation is applied nor when the allocator moves it to make room for somebody else *)
+Theorem C12_bln_mem_preserve_optout : forall i, bi_mem_preserve i = true ->
+  bln_sets_mems i = false /\ bln_moved_sets_mems i = false.
+Proof. intros i H. unfold bln_sets_mems, bln_moved_sets_mems. rewrite H. rewrite andb_false_r. auto. Qed.
+Print Assumptions C12_bln_mem_preserve_optout.
+
+(* ... and a container whose memory pinning is off is never written when the allocator moves others *)
+Theorem C12_bln_moved_unpinned_optout : forall i,
+  bi_type_pin_mem i = Some false \/ (bi_type_pin_mem i = None /\ bi_pin_mem i = false) -> bln_moved_sets_mems i = false.
+Proof. intros i [H|[H1 H2]]; unfold bln_moved_sets_mems, bln_pin_mem_eff; [rewrite H|rewrite H1, H2]; auto. Qed.
+Print Assumptions C12_bln_moved_unpinned_optout.
